@@ -34,7 +34,8 @@ fn bytes_of(v: &[Fr]) -> Vec<u8> {
 }
 
 fn gen_vector(rng: &mut Rng, len: usize) -> Vec<Fr> {
-    let style = rng.below(6);
+    let style = rng.below(7);
+    let constant = rng.scalar();
     (0..len)
         .map(|i| match style {
             0 => rng.scalar(),
@@ -54,6 +55,8 @@ fn gen_vector(rng: &mut Rng, len: usize) -> Vec<Fr> {
                 }
             }
             3 => Fr::from(i as u64 + 1),
+            // all entries equal
+            6 => constant,
             4 => {
                 if i == 0 {
                     Fr::one()
